@@ -98,13 +98,22 @@ def gen_solver_spec(r, like=None, short=False):
 SHARED_PARAMS = {"eps": 0.02, "r": 3.1, "itersLimit": 25, "evolventDensity": 10, "refineSolution": False}
 
 
-def build(spec, shared=None):
+def build(spec, shared=None, states=None):
     """shared: a one-element list holding the SolverParameters object common to the "shared" solvers of the run (created on
     first use), so that the interleaved run really passes ONE object to several solvers and a solo run its own equal one"""
     from iOpt.solver import Solver
     from iOpt.solver_parametrs import SolverParameters
     p = spec["problem"]
-    if p["kind"] == "logged":
+    if p["kind"] == "same":
+        # ONE Problem object handed to several solvers (e.g. to compare two values of r on the same problem): whatever a solver
+        # attaches to / changes on the problem object reaches the others
+        other = states[p["as"]] if states is not None else None
+        prob = other["problem"] if other is not None else None
+        if prob is None:
+            p = p["of"]
+    if p["kind"] == "same":
+        pass
+    elif p["kind"] == "logged":
         fn = objectives.make(p["spec"], p["lower"], p["upper"])
         prob = implmod.LoggedProblem.make(fn, p["lower"], p["upper"])
     else:
@@ -120,7 +129,8 @@ def build(spec, shared=None):
         q = spec["params"]
         sv = Solver(prob, SolverParameters(eps=q["eps"], r=q["r"], itersLimit=q["itersLimit"],
                                            evolventDensity=q["evolventDensity"], refineSolution=q["refineSolution"]))
-    return {"problem": prob, "solver": sv, "held": [], "done": 0, "spec": spec}
+    return {"problem": prob, "solver": sv, "held": [], "done": 0, "spec": spec,
+            "owners": {id(sv.task), id(sv.process)}}
 
 
 class _Gone:
@@ -141,6 +151,14 @@ class _Gone:
 def do_op(st, op):
     oc.common.beat("oracle: solver operation " + str(op), {"solver_spec": st.get("spec")})
     sv = st["solver"]
+    if op == "B" and not isinstance(sv, _Gone):
+        # the caller re-targets THIS solver's evolvent to the middle half of its box through the public SetBounds (its own business:
+        # its later trials lie there); no other solver - also not one working on the same Problem object - may notice
+        ev = sv.evolvent
+        lo = np.array([float(v) for v in ev.lowerBoundOfFloatVariables]); hi = np.array([float(v) for v in ev.upperBoundOfFloatVariables])
+        ev.SetBounds(lo + 0.25 * (hi - lo), hi - 0.25 * (hi - lo))
+        st["done"] += 1
+        return
     if isinstance(sv, _Gone):
         st["done"] += 1
         return
@@ -168,7 +186,7 @@ def do_op(st, op):
 
 
 def observe(st):
-    log = [(ph, tuple(oc.f2h(c) for c in pt), oc.f2h(v)) for ph, pt, v in oc.plog(st["problem"])]
+    log = [(ph, tuple(oc.f2h(c) for c in pt), oc.f2h(v)) for ph, pt, v in oc.plog(st["problem"], st.get("owners"))]
     snaps = []
     for s_ in st["held"]:
         try:
@@ -207,18 +225,18 @@ def interleaved(case):
     shared = [None]
     if case["construct"] == "upfront":
         for i in case.get("order", range(len(specs))):
-            states[i] = build(specs[i], shared)
+            states[i] = build(specs[i], shared, states)
     steps = []
     for step, who in enumerate(case["schedule"]):
         if states[who] is None:
-            states[who] = build(specs[who], shared)
+            states[who] = build(specs[who], shared, states)
         st = states[who]
         do_op(st, specs[who]["ops"][st["done"]])
         steps.append([step, who, [[i, s["done"], observe(s)] for i, s in enumerate(states) if s is not None]])
     finals = []
     for i, s in enumerate(states):
         if s is None:
-            s = states[i] = build(specs[i], shared)
+            s = states[i] = build(specs[i], shared, states)
         res_ = s["solver"].GetResults()
         finals.append([s["done"], None if res_ is None else oc.solution_snapshot(res_)])
     return _norm([steps, finals])
@@ -291,11 +309,26 @@ def twin_specs(r):
 
 def gen_case(r, short=False):
     k = 2 if (short or r.random() < 0.7) else 3
-    twins = big = False
+    twins = big = same_problem = False
     if not short and r.random() < 0.08:
         specs = twin_specs(r)
         k = 2
         twins = True
+    elif not short and r.random() < 0.08:
+        # two solvers on ONE and the same Problem object (two values of r / eps compared on one problem)
+        n = r.choice([1, 2, 2, 3])
+        lo, hi = oc.gen_box(r, n)
+        pr = {"kind": "logged", "spec": objectives.gen_spec(r, n), "lower": lo, "upper": hi}
+        mk = lambda: {"eps": r.choice([0.1, 0.02, 0.01]), "r": round(r.uniform(1.5, 5), 2), "itersLimit": r.choice([8, 12, 20, 35]),
+                      "evolventDensity": r.randint(4, 10), "refineSolution": False}
+        a_ = {"problem": pr, "params": mk(), "ops": [r.choice(["I1", "I2", "I3", "S", "G"]) for _ in range(r.randint(2, 5))]}
+        b_ = {"problem": {"kind": "same", "as": 0, "of": pr}, "params": mk(),
+              "ops": [r.choice(["I1", "I2", "I3", "S", "G"]) for _ in range(r.randint(2, 5))]}
+        if r.random() < 0.4:
+            b_["ops"].insert(r.randrange(len(b_["ops"])), "B")
+        specs = [a_, b_]
+        k = 2
+        same_problem = True
     elif not short and r.random() < 0.06:
         # solver A is driven to the floating-point collapse (an accuracy that doubles cannot reach): its Solve ends through the
         # internal exception handler; solver B evaluates an objective whose numpy arithmetic underflows harmlessly.  Whatever A's
@@ -337,6 +370,8 @@ def gen_case(r, short=False):
     order = list(range(k))
     r.shuffle(order)
     case = {"solvers": specs, "schedule": sched, "construct": r.choice(["upfront", "lazy"]), "order": order}
+    if same_problem:
+        case["construct"], case["order"] = "upfront", [0, 1]
     shared_state = any(not isinstance(s_["params"], dict) for s_ in specs)
     refines = sum(1 for s_ in specs if "R" in s_["ops"] or (isinstance(s_["params"], dict) and s_["params"]["refineSolution"]
                                                            and "S" in s_["ops"]))
